@@ -297,6 +297,9 @@ func checkCopy(r *Run, adapter, op string, c map[string]interface{}, src, out pr
 			r.Violate("cloner/"+adapter+"/unusable-copy", "yields, for every message, a copy that is equal to the source", sprintf("%s returned ok but inspecting the copy panics: %s", op, trunc(fmt.Sprint(p), 100)), c, "")
 		}
 	}()
+	if op == "clone" && reflect.ValueOf(src).Kind() == reflect.Ptr && reflect.ValueOf(out).Kind() == reflect.Ptr && reflect.ValueOf(src).Pointer() == reflect.ValueOf(out).Pointer() {
+		r.Violate("cloner/"+adapter+"/clone-is-the-source", "shares no mutable memory with it", "Clone returned the source object itself", c, "")
+	}
 	if got := bytesOf(out); got != snap {
 		sig := "cloner/" + adapter + "/not-equal"
 		if c["dst_prepopulated"] == true {
